@@ -578,7 +578,7 @@ def _is_insn_data_store(tu, x):
 
 def rf16j(run):
     rule = 'RF16j'
-    run.rule(rule, 'mir.c uses MIR_insn_t.data of the *original* labels as a forwarding pointer while instructions are copied. Every '
+    run.rule(rule, 'mir.c and mir-interp.c use MIR_insn_t.data of the *original* instructions as scratch (label forwarding while copying, code offsets while preparing interpretation). Every '
                    'function that stores a non-null value there either scrubs it itself (a later loop over the same list storing NULL '
                    'under the same test) or records the label, in the same basic block, in a VARR parameter; every caller passes a '
                    'non-null VARR there and, on every path from that call to its exit, hands the same VARR to a drain function whose '
@@ -586,7 +586,7 @@ def rf16j(run):
     tu = run.tu('mir')
     stores = []  # (func, node, base, value)
     for f in tu.funcs.values():
-        if not f.relfile().endswith('mir.c') or f.body is None:
+        if not (f.relfile().endswith('mir.c') or f.relfile().endswith('mir-interp.c')) or f.body is None:
             continue
         for x in f.walk():
             r = _is_insn_data_store(tu, x)
@@ -649,8 +649,26 @@ def rf16j(run):
         own = [s for s in scrubs if s[0] is f]
         if own:
             def guards(b_):
-                # every dominating test except the exits of earlier list walks (`x != 0` false)
-                return sorted({c for c in dominating_conditions(cfg, b_) if not (not c[1] and c[0].endswith('!= 0)'))})
+                # the tests inside the loops that enclose b_ (what selects the instructions touched in one walk of the list);
+                # tests before the outermost enclosing loop (error exits, earlier walks) select nothing per instruction
+                hs = _loop_headers_of(cfg, b_)
+                idom_ = cfg.dominators()
+                out_ = set()
+                for B_ in cfg.blocks.values():
+                    if B_.cond is None or len(B_.succs) != 2 or B_.tk == 'SwitchStmt' or B_.id in hs:
+                        continue
+                    if not any(cfg.dominates(h_, B_.id, idom_) for h_ in hs):
+                        continue
+                    if not (B_.id == b_ or cfg.dominates(B_.id, b_, idom_)):
+                        continue
+                    t_, f_ = B_.succs
+                    for succ_, truth_ in ((t_, True), (f_, False)):
+                        other_ = f_ if truth_ else t_
+                        if succ_ is None:
+                            continue
+                        if (succ_ == b_ or cfg.dominates(succ_, b_, idom_)) and not (other_ is not None and (other_ == b_ or b_ in cfg.reachable_from(other_, avoid=lambda q_: q_ == B_.id or q_ in hs))):
+                            out_.add((F.src(F.strip(B_.cond)), truth_))
+                return sorted(out_)
             conds = guards(blk)
             ok = False
             for _, sx, sb in own:
@@ -719,12 +737,110 @@ def rf16j(run):
 def _loop_headers_of(cfg, blk):
     """ids of condition blocks that blk can reach and that can reach blk (loop headers around blk)"""
     out = []
+    idom = cfg.dominators()
     for H in cfg.blocks.values():
         if H.cond is not None and len(H.succs) == 2 and H.id != blk:
-            if H.id in cfg.reachable_from(blk) and blk in cfg.reachable_from(H.id):
+            # a real loop header: the target of a back edge
+            if not any(cfg.dominates(H.id, q, idom) for q in (H.preds or []) if q != H.id):
+                continue
+            if cfg.dominates(H.id, blk, idom) and H.id in cfg.reachable_from(blk):
                 out.append(H.id)
     return out
 
 
 def _loop_signature(cfg, hdrs):
     return sorted(F.src(F.strip(cfg.blocks[h].cond)) for h in hdrs)
+
+
+# ---------------------------------------------------------------------------------------------
+# RF16k: nothing writes the function's instructions before the generator has taken its working copy
+# ---------------------------------------------------------------------------------------------
+
+def _insn_stores(tu, f):
+    """stores whose destination is reached through an expression of type MIR_insn_t / MIR_op_t* of an instruction"""
+    out = []
+    for x in f.walk():
+        if x['k'] in ('BinaryOperator', 'CompoundAssignOperator') and x.get('op') in ('=', '+=', '-=', '|=', '&=') or \
+                x['k'] == 'UnaryOperator' and x.get('op') in ('++', '--'):
+            l = F.strip(x['c'][0])
+            node = l
+            hit = False
+            while node is not None and node['k'] in ('MemberExpr', 'ArraySubscriptExpr', 'UnaryOperator', 'ImplicitCastExpr', 'CStyleCastExpr', 'ParenExpr'):
+                kids_ = F.kids(node)
+                if not kids_:
+                    break
+                base = F.strip(kids_[0])
+                bt = tu.type(base)
+                if node['k'] == 'MemberExpr' and bt is not None and ('MIR_insn_t' in bt.s or 'struct MIR_insn' in bt.s):
+                    hit = True
+                    break
+                node = base
+            if hit:
+                out.append(x)
+    return out
+
+
+def rf16k(run):
+    rule = 'RF16k'
+    run.rule(rule, 'generate_func_code: on every path from its entry to _MIR_duplicate_func_insns no field of an instruction '
+                   '(MIR_insn_t: code, ops, data, nops) is written, neither in the function itself nor in a function of mir-gen.c it calls '
+                   'on the way (two call levels): everything the generator changes must change the working copy, which is discarded at '
+                   'the restore')
+    tu = run.tu('gen')
+    f = tu.func('generate_func_code')
+    run.functions_analysed.add(('gen', f.name))
+    cfg = f.cfg
+    D = calls_in(cfg, '_MIR_duplicate_func_insns')
+    if len(D) != 1:
+        raise F.AnalysisBroken('generate_func_code: expected one call of _MIR_duplicate_func_insns')
+    d = next(iter(D))
+    before = cfg.reachable_from(cfg.entry, avoid=lambda b: b == d) | {d}
+    own = _insn_stores(tu, f)
+    bad = []
+    nchecked = 0
+    for x in own:
+        b = cfg.block_of(x)
+        if b is None or b not in before:
+            continue
+        if b == d:
+            B = cfg.blocks[d]
+            pos_call = min(i for i, e in enumerate(B.elems) if any(y['k'] == 'CallExpr' and y.get('callee') == '_MIR_duplicate_func_insns' for y in F.walk(e)))
+            pos_store = min((i for i, e in enumerate(B.elems) if any(y is x for y in F.walk(e))), default=pos_call + 1)
+            if pos_store > pos_call:
+                continue
+        bad.append((f, x))
+    # callees on the way
+    seen = set()
+
+    def callee_stores(g, depth):
+        res = []
+        if g.name in seen or depth > 2:
+            return res
+        seen.add(g.name)
+        for x in _insn_stores(tu, g):
+            res.append((g, x))
+        for y in g.walk():
+            if y['k'] == 'CallExpr' and y.get('callee') in tu.funcs and tu.funcs[y['callee']].body is not None:
+                res += callee_stores(tu.funcs[y['callee']], depth + 1)
+        return res
+    for b in before:
+        B = cfg.blocks[b]
+        for i, e in enumerate(B.elems):
+            for y in cfg.local_walk(e):
+                if y['k'] == 'CallExpr' and y.get('callee') in tu.funcs and y['callee'] != '_MIR_duplicate_func_insns' \
+                        and tu.funcs[y['callee']].body is not None and tu.funcs[y['callee']].relfile().startswith('mir-gen'):
+                    if b == d:
+                        pos_call = min(j for j, e2 in enumerate(B.elems) if any(z['k'] == 'CallExpr' and z.get('callee') == '_MIR_duplicate_func_insns' for z in F.walk(e2)))
+                        if i > pos_call:
+                            continue
+                    nchecked += 1
+                    bad += callee_stores(tu.funcs[y['callee']], 1)
+    ok = not bad
+    run.ob(rule, ('pre-duplication',), ok, {'blocks before the duplication': len(before), 'generator functions called on the way': nchecked,
+                                           'instruction stores found': [('%s:%d' % (g.name, x['l'])) for g, x in bad][:5]})
+    for g, x in bad[:3]:
+        run.violation(rule, g, 'store %s before the working copy exists' % F.src(x)[:60],
+                      '%s writes %s while generate_func_code has not yet duplicated the function\'s instructions: the change lands in the '
+                      'original MIR, which printing, interpretation, inlining and a later generation see' % (g.name, F.src(F.strip(x['c'][0]))[:60]),
+                      line=x['l'])
+    run.min_instances(rule, 1)
